@@ -78,6 +78,7 @@ pub fn fixed_programs() -> Vec<(String, Vec<Stmt>)> {
         ("non-gate-callee", vec![decl(Ty::Int(None), "a", None), qd("q"), call("a", None, vec![o("q")]), call("q", None, vec![o("q")])]),
         ("classical-operands", vec![decl(Ty::Int(None), "a", None), decl(Ty::Bit(Some(bx(int(2)))), "c", None), call("U", u3(), vec![o("a")]), Stmt::Reset(o("a")), Stmt::MeasureStmt(o("a")), Stmt::Barrier(vec![o("a")]), call("U", u3(), vec![oi("c", 0)])]),
         ("quantum-operands-ok", vec![qd("q"), qr("r", 2), call("U", u3(), vec![o("q")]), call("U", u3(), vec![oi("r", 1)]), call("U", u3(), vec![Operand::Hw("$3".into())]), Stmt::Reset(o("r")), Stmt::MeasureStmt(oi("r", 0)), Stmt::Barrier(vec![o("q"), o("r"), Operand::Hw("$1".into())])]),
+        ("hardware-qubit-in-binary-op", vec![decl(Ty::Int(None), "a", None), Stmt::ExprStmt(Expr::Bin(BinOp::Add, bx(Expr::Hw("$0".into())), bx(id("a")))), Stmt::ExprStmt(Expr::Bin(BinOp::Mul, bx(id("a")), bx(Expr::Hw("$1".into())))), Stmt::If { cond: Expr::Bin(BinOp::Eq, bx(Expr::Hw("$0".into())), bx(int(1))), then: blk(vec![]), els: None }, Stmt::ExprStmt(Expr::Bin(BinOp::Add, bx(Expr::Hw("$0".into())), bx(Expr::Hw("$1".into())))), Stmt::ExprStmt(Expr::Bin(BinOp::Mul, bx(Expr::Hw("$3".into())), bx(Expr::Hw("$3".into())))), Stmt::If { cond: Expr::Bin(BinOp::Neq, bx(Expr::Hw("$0".into())), bx(Expr::Hw("$1".into()))), then: blk(vec![]), els: None }]),
         ("quantum-in-binary-op", vec![qd("q"), qr("r", 2), decl(Ty::Int(None), "a", None), Stmt::ExprStmt(Expr::Bin(BinOp::Add, bx(id("q")), bx(id("a")))), Stmt::ExprStmt(Expr::Bin(BinOp::Mul, bx(id("a")), bx(id("r")))), Stmt::If { cond: Expr::Bin(BinOp::Eq, bx(id("q")), bx(id("r"))), then: blk(vec![]), els: None }, Stmt::ExprStmt(Expr::Bin(BinOp::Sub, bx(id("a")), bx(id("a"))))]),
         ("def-argument-count", vec![Stmt::Def { name: "f".into(), params: vec![(ParamTy::Scalar(Ty::Int(None)), "p".into())], ret: Some(Ty::Int(None)), body: vec![Stmt::Return(Some(id("p")))] }, decl(Ty::Int(None), "y", Some(Expr::Call("f".into(), vec![]))), decl(Ty::Int(None), "z", Some(Expr::Call("f".into(), vec![int(1), int(2)]))), decl(Ty::Int(None), "w", Some(Expr::Call("f".into(), vec![int(1)])))]),
         ("def-qubit-param", vec![Stmt::Def { name: "m".into(), params: vec![(ParamTy::Qubit(None), "q".into()), (ParamTy::Scalar(i32t()), "k".into())], ret: Some(Ty::Bit(None)), body: vec![call("U", u3(), vec![o("q")]), Stmt::Return(Some(Expr::Measure(o("q"))))] }, qd("r"), decl(Ty::Bit(None), "b", Some(Expr::Call("m".into(), vec![id("r"), int(1)])))]),
